@@ -22,13 +22,13 @@ it once per case.
 from frames.domain import parse_spec, NOCONST
 
 _INHERIT = ('params', 'flags', 'returns', 'modifies', 'stores', 'retains', 'dict_reads', 'rng', 'seed_param',
-            'clock_params', 'io', 'licence', 'service', 'aliases_ok')
+            'clock_params', 'io', 'licence', 'service', 'aliases_ok', 'ndim_from')
 
 
 class Case:
     def __init__(self, name='', params=None, flags=None, returns=None, modifies=None, stores=None, retains=(),
                  dict_reads=None, rng=(), seed_param=None, clock_params=(), io=False, licence='', service=False,
-                 aliases_ok=None):
+                 aliases_ok=None, ndim_from=None):
         self.name = name
         self.params = dict(params or {})
         self.flags = dict(flags or {})
@@ -44,13 +44,15 @@ class Case:
         self.licence = licence
         self.service = service
         self.aliases_ok = aliases_ok
+        self.ndim_from = ndim_from          # parameter holding the shape of the returned array
 
     def result_aliases(self):
         if self.returns is None:
             return set()
         out = set()
         for a in parse_spec(self.returns).aliases():
-            out.add(a[:-2] if a.endswith('[]') else a)
+            a = a[:-2] if a.endswith('[]') else a
+            out.add(a.split('.')[0])
         return out
 
     def but_returns(self, r):
